@@ -92,6 +92,12 @@ def evaluate(term, assign, window=range(-1, 9), bound=None):
             raise CannotEvaluate(f"uninterpreted function {name}")
         if k == z3.Z3_OP_DT_CONSTRUCTOR:
             return tuple(ev(c, env) for c in ch)
+        if k == z3.Z3_OP_DT_ACCESSOR:
+            dt = ch[0].sort()
+            for j in range(dt.constructor(0).arity()):
+                if dt.accessor(0, j).eq(t.decl()):
+                    return ev(ch[0], env)[j]
+            raise CannotEvaluate("accessor of an unknown datatype")
         if k == z3.Z3_OP_ADD:
             return sum(ev(c, env) for c in ch)
         if k == z3.Z3_OP_SUB:
@@ -135,7 +141,16 @@ def evaluate(term, assign, window=range(-1, 9), bound=None):
         if k in (z3.Z3_OP_EQ, z3.Z3_OP_DISTINCT):
             a, b = ev(ch[0], env), ev(ch[1], env)
             if isinstance(a, Arr) or isinstance(b, Arr):
-                raise CannotEvaluate("array equality")
+                # extensional equality over a finite index universe (conformance tests on concrete data only)
+                universe = assign.get("__universe__", {})
+                dom = ch[0].sort().domain() if isinstance(ch[0].sort(), z3.ArraySortRef) else None
+                if dom is None or not (dom == z3.IntSort() or dom.name() in universe) or not (isinstance(a, Arr) and isinstance(b, Arr)):
+                    raise CannotEvaluate("array equality")
+                if isinstance(ch[0].sort().range(), z3.ArraySortRef):
+                    raise CannotEvaluate("equality of arrays of arrays")
+                idx = window if dom == z3.IntSort() else universe[dom.name()]
+                same = all((close(a(i), b(i)) if isinstance(a(i), float) or isinstance(b(i), float) else a(i) == b(i)) for i in idx)
+                return same if k == z3.Z3_OP_EQ else not same
             same = close(a, b) if isinstance(a, float) or isinstance(b, float) else a == b
             return same if k == z3.Z3_OP_EQ else not same
         if k in (z3.Z3_OP_LE, z3.Z3_OP_GE, z3.Z3_OP_LT, z3.Z3_OP_GT):
